@@ -82,6 +82,7 @@ def run(rep, tier, seed):
     cli = os.path.join(common.build_variant("plain"), "multimarkdown")
     rundir = os.path.join(common.BUILD, "run", "C07.%d" % os.getpid()); os.makedirs(rundir, exist_ok=True)
     nruns = 0
+    inconclusive = []
     try:
         depths = [2000, 30000, 500000] if tier == "quick" else [2000, 30000, 100000, 250000, 500000]
         for cname, (o, c) in NEST.items():
@@ -91,6 +92,8 @@ def run(rep, tier, seed):
                 src = (o * n + "a" + c * n + "\n").encode()
                 p = os.path.join(rundir, "n.md"); open(p, "wb").write(src)
                 for fmt in (["html", "latex", "fodt", "opml"] if tier != "quick" else [rng.choice(["html", "latex", "fodt", "opml"])]):
+                    if cname == "footnote" and fmt == "html" and n > 30000:
+                        continue  # n nested inline footnotes cost O(n^2) in the HTML writer (the label text of each is cleaned separately: observation in DESIGN.md; not a stated cost clause)
                     nruns += 1
                     try:
                         r = subprocess.run([cli, "-t", fmt, p], stdout=subprocess.DEVNULL, stderr=subprocess.PIPE, preexec_fn=limit_stack, timeout=300)
@@ -98,7 +101,8 @@ def run(rep, tier, seed):
                     except subprocess.TimeoutExpired:
                         rc = "timeout"
                     if rc == "timeout":
-                        bad.append(("nesting-timeout:%s" % cname, "%d nested %s openers: conversion to %s did not finish in 300 s" % (n, cname, fmt), dict(construct=cname, depth=n, fmt=fmt)))
+                        # the stack clause says 'never crashes'; a run that is still going after 300 s shows no crash and is recorded as not judged
+                        inconclusive.append("%s depth %d -> %s: no result in 300 s" % (cname, n, fmt))
                     elif rc != 0:
                         kind = "deep-nesting-stack-overflow" if n >= 100000 else "stack-overflow-at-moderate-depth:%s" % cname
                         bad.append((kind, "%d nested %s openers (%d bytes): conversion to %s died with status %s under an 8 MiB stack" % (n, cname, len(src), fmt, rc),
@@ -107,6 +111,7 @@ def run(rep, tier, seed):
         import shutil; shutil.rmtree(rundir, ignore_errors=True)
     rep.cov["evaluations"] = len(meas) * len(sizes) + nruns
     rep.cov["distinct_nontrivial"] = len(meas) + len(NEST)
+    rep.cov["nesting_runs_not_judged"] = inconclusive
     rep.cov["families"] = {("%s/%s" % k): v for k, v in list(meas.items())[:30]}
     rep.cov["rule"] = ("cost: the published pathological families and random repetitions of their atoms at sizes %s (marginal matcher steps and token allocations must not grow faster "
                        "than 2.8x per doubling), k in 1..16 copies of generated documents; stack: %d nesting constructs x depths x formats under an 8 MiB stack limit" % (list(sizes), len(NEST)))
